@@ -21,7 +21,8 @@ RULE_TEXT = ("VIEW: interpreting _TensorViewer on interleaved index sets, stitch
 
 def world(repo, extra=None):
     ext = listnp.externals()
-    ext.update({"subscribe": lambda a, k: PyFunc(lambda a2, k2: None, "subscriber"), "get_backend": lambda a, k: (Obj("tensorlib"), None)})
+    the_tensorlib = Obj("tensorlib", {"name": "numpy", "precision": "64b"})  # ONE backend object per world: what code keys on it stays equal
+    ext.update({"subscribe": lambda a, k: PyFunc(lambda a2, k2: None, "subscriber"), "get_backend": lambda a, k: (the_tensorlib, None)})
     ext.update(extra or {})
     w = World(ext, module_env={"pyhf": Obj("pyhf", {"default_backend": Obj("default_backend")}), "events": Obj("events")})
     w.add_class(repo.cls(TC, "_TensorViewer")).add_class(repo.cls(PV, "ParamViewer"))
@@ -100,15 +101,19 @@ def check(ctx, rid):
     def sl(s, e):
         return Obj("slice", {"start": c(s), "stop": c(e)})
 
-    slices = {"b": (2, 5), "z": (0, 2), "c": (5, 6), "a": (6, 8)}  # neither listing nor alphabetical order is slice order
+    # two models' parameter layouts with the SAME parameter-set names, the same total and the same selections, in one world
+    # (module-level state of paramview.py / tensor/common.py shared): the second layout's viewers address its own slices
+    layouts = [{"b": (2, 5), "z": (0, 2), "c": (5, 6), "a": (6, 8)},  # neither listing nor alphabetical order is slice order
+               {"a": (0, 2), "c": (2, 3), "z": (3, 5), "b": (5, 8)}]
     npars = 8
-    for selection in (["c", "z"], ["a", "b", "z"], ["b"]):
-        for shape in ((npars,), (2, npars), (1, npars)):
+    shared = world(repo)
+    for li, slices, selection, shape in [(li, sl_, sel_, sh_) for li, sl_ in enumerate(layouts) for sel_ in (["c", "z"], ["a", "b", "z"], ["b"]) for sh_ in ((npars,), (2, npars), (1, npars))]:
+        if True:
             rows = shape[0] if len(shape) > 1 else None
-            lab = f"selection={selection} shape={shape}"
+            lab = f"selection={selection} shape={shape}" + ("" if li == 0 else " [second layout with the same names, same process]")
             site = f"{PV}::ParamViewer [{lab}]"
             try:
-                w = world(repo)
+                w = shared
                 par_map = {n: {"slice": sl(*se), "paramset": Obj(f"ps_{n}")} for n, se in slices.items()}
                 pv = w.new(pvc, [tuple(c(x) for x in shape), par_map, list(selection)], {})
                 flat = lambda r, j: (r or 0) * npars + j
